@@ -662,7 +662,7 @@ func main() {
 		fmt.Fprintln(os.Stderr, "need -out")
 		os.Exit(2)
 	}
-	w, err := casefile.New(*out, "C05", "From Coq Require Import ZArith.\nFrom VLib Require Import CaseLib.\nFrom C05 Require Import Model CaseDefs.\nOpen Scope N_scope.", 300)
+	w, err := casefile.New(*out, "C05", "From Coq Require Import ZArith.\nFrom VLib Require Import CaseLib.\nFrom C05 Require Import Model ModelAgg ModelDocs CaseDefs.\nOpen Scope N_scope.", 300)
 	if err != nil {
 		panic(err)
 	}
